@@ -484,6 +484,31 @@ Definition alloc_records_sb (rows : list (list N)) (allocs : list (N * alloc_inf
   forallb (fun p => fst p <? N.of_nat (length rows)) allocs &&
   nodup_keys allocs.
 
+(** * Which allocation blocks the table shows
+    ([StatsSet<f64>::is_zero], [src/stats/mod.rs:60-67];
+    [AllocTally<StatsSet<f64>>::is_zero], [src/alloc.rs:408-412]; the painter
+    prints `max alloc:` iff [!max_alloc.size.is_zero()] and the block of an
+    operation iff [!tally.is_zero()], [src/tree_painter.rs:199-238]) *)
+
+(** [x == 0.0] *)
+Definition xq_is_zero (x : xq) : bool := match x with Fin n _ => n =? 0 | _ => false end.
+
+(** [StatsSet<f64>::is_zero]: all four columns are 0. *)
+Definition set_is_zero (s : stats_set xq) : bool :=
+  xq_is_zero (fastest s) && xq_is_zero (slowest s) && xq_is_zero (median s) && xq_is_zero (mean s).
+
+(** Printed or not: `max alloc:`, then `grow:`, `shrink:`, `alloc:`, `dealloc:`. *)
+Definition printed_blocks (st : stats) : list bool :=
+  negb (set_is_zero (st_max_size st)) ::
+  map (fun p => negb (set_is_zero (fst p) && set_is_zero (snd p))) (st_tallies st).
+
+(** Specification: a block is shown iff some recorded allocation info has a
+    non-zero figure of that kind. *)
+Definition blocks_spec (inp : inputs) : list bool :=
+  negb (total_of ai_max_size (in_allocs inp) =? 0) ::
+  map (fun op => negb ((total_of (fun i => t_count (ai_tally op i)) (in_allocs inp) =? 0) &&
+                       (total_of (fun i => t_size (ai_tally op i)) (in_allocs inp) =? 0))) all_ops.
+
 (** * Admissible sorted views *)
 
 Fixpoint sorted_by_snd (l : list (N * N)) : bool :=
